@@ -1,0 +1,45 @@
+// SPDX-License-Identifier: Apache-2.0
+// Copyright Authors of Cilium
+
+//go:build verif
+
+package lpm
+
+import (
+	"encoding/hex"
+	"strconv"
+	"strings"
+)
+
+// Verification instrumentation. Only compiled with `-tags verif`.
+
+func verifDumpNode[T any](b *strings.Builder, n *lpmNode[T]) {
+	if n == nil {
+		b.WriteString("-")
+		return
+	}
+	data, plen := DecodeLPMKey(n.key)
+	b.WriteString("(" + hex.EncodeToString(data) + "/" + strconv.Itoa(int(plen)))
+	if n.imaginary {
+		b.WriteString("*")
+	}
+	b.WriteString(" ")
+	verifDumpNode(b, n.children[0])
+	b.WriteString(" ")
+	verifDumpNode(b, n.children[1])
+	b.WriteString(")")
+}
+
+// VerifDumpTrie renders the structure of the trie in a canonical text form.
+func VerifDumpTrie[T any](t Trie[T]) string {
+	var b strings.Builder
+	verifDumpNode(&b, t.root)
+	return b.String()
+}
+
+// VerifDumpTxn renders the structure of the transaction's current root.
+func VerifDumpTxn[T any](txn *Txn[T]) string {
+	var b strings.Builder
+	verifDumpNode(&b, txn.root)
+	return b.String()
+}
